@@ -80,6 +80,23 @@ class ScanModel:
                                f"{len(top)} top-level and {len(inner)} nested while loops")
         self.prefix, self.main = top
         self.adv = inner[0]
+        d0 = len(self.prefix.get('outer', ()))
+        if len(self.main.get('outer', ())) != d0:
+            raise Unrecognised(f"{self.fi.name}: the two top-level loops are in different functions")
+        da = len(self.adv.get('outer', ()))
+        if da > d0:
+            # the advance loop lives in a helper / method called from the main loop: the roles kept in local names are those of the calling function
+            # (the helper cannot re-bind them); the ones kept in object fields are shared
+            caller = self.adv['outer'][d0]
+            if caller is None:
+                raise Unrecognised(f"{self.fi.name}: the nested loop's calling frame is not known")
+            adv = dict(self.adv)
+            adv['_outer'] = caller
+            adv['entry'] = self._view(adv, self.adv['entry'])
+            adv['names'] = {n for n in self.adv['names'] if n.startswith('@')}
+            self.adv = adv
+        elif da < d0:
+            raise Unrecognised(f"{self.fi.name}: the nested loop is outside the function of the main loop")
         if not any(l.lid == self.main['lid'] for l in self._loop_stack(self.adv)):
             raise Unrecognised(f"{self.fi.name}: the nested loop is not inside the second top-level loop")
 
@@ -95,7 +112,7 @@ class ScanModel:
         return ()
 
     def _roles(self):
-        pre = self.prefix['pre'].env
+        pre = self.flat(self.prefix['pre'])
         its, nexts = {}, []
         # calls made before the first loop
         for e in self.ev.events:
@@ -117,9 +134,10 @@ class ScanModel:
             return None
         xs = [e for e in nexts if iter_of(e.data['pos'][0]) == 'x']
         ls = [e for e in nexts if iter_of(e.data['pos'][0]) == 'lookup']
-        if len(xs) != 2 or len(ls) != 1 or len({e.data['pos'][0].uid for e in xs}) != 1:
+        if len(xs) != 2 or len(ls) not in (1, 2) or len({e.data['pos'][0].uid for e in xs}) != 1 or len({e.data['pos'][0].uid for e in ls}) != 1:
             raise Unrecognised(f"{self.fi.name}: initialisation not recognised: expected two elements taken from one iterator over "
-                               f"{self.px} and one from an iterator over {self.pl} before the loops (found {len(xs)} and {len(ls)})")
+                               f"{self.px} and one (or two, with a look-ahead query) from an iterator over {self.pl} before the loops (found {len(xs)} and {len(ls)})")
+        ls.sort(key=lambda e: e.seq)
         first, second = sorted(xs, key=lambda e: e.seq)
         self.issues: List[str] = []
         if len(first.data['pos']) != 1:
@@ -128,6 +146,10 @@ class ScanModel:
             raise_or = 'the look-ahead element is not fetched with a None sentinel'
             self.issues.append(raise_or)
         self.X0, self.X1, self.L0 = first.data['result'], second.data['result'], ls[0].data['result']
+        # a look-ahead query (value <- next_value <- next(iterator, None)): the query stream delayed by one element
+        self.L1 = ls[1].data['result'] if len(ls) == 2 else None
+        if self.L1 is not None and not (len(ls[1].data['pos']) == 2 and isinstance(ls[1].data['pos'][1], Const) and ls[1].data['pos'][1].v is None):
+            self.issues.append('the look-ahead query is not fetched with a None sentinel')
         self.x_it, self.l_it = first.data['pos'][0], ls[0].data['pos'][0]
 
         def names_with(pred):
@@ -146,6 +168,12 @@ class ScanModel:
                                   ('array counter', self.n_p, 1), ('query counter', self.n_q, 1), ('result array', self.n_ind, 1)):
             if len(names) != need:
                 raise Unrecognised(f"{self.fi.name}: initialisation not recognised: {len(names)} candidate names for the {what} ({names})")
+        self.lk_next = None
+        if self.L1 is not None:
+            cands = [n for n in names_with(lambda v: veq(v, self.L1)) if n in mainn and n in pren]
+            if len(cands) != 1:
+                raise Unrecognised(f"{self.fi.name}: initialisation not recognised: {len(cands)} candidate names for the look-ahead query ({cands})")
+            self.lk_next = cands[0]
         self.nxt = [n for n in self.n_next if n in advn][0]
         self.lkn = [n for n in self.n_lk if n in mainn and n in pren][0]
         self.p, self.q, self.ind = self.n_p[0], self.n_q[0], self.n_ind[0]
@@ -194,7 +222,27 @@ class ScanModel:
         return loop['entry'][name]
 
     def end(self, loop, name) -> Val:
-        return loop['end'].env[name]
+        return self._view(loop, self.flat(loop['end']))[name]
+
+    def pre(self, loop, name) -> Optional[Val]:
+        """value of `name` just before `loop`"""
+        return self._view(loop, self.flat(loop['pre'])).get(name)
+
+    @staticmethod
+    def _view(loop, env: dict) -> dict:
+        """for a loop inside a helper: the calling function's names, and the object fields as the helper sees them"""
+        outer = loop.get('_outer')
+        if outer is None:
+            return env
+        out = dict(outer)
+        out.update({k: v for k, v in env.items() if k.startswith('@')})
+        return out
+
+    @staticmethod
+    def flat(state) -> dict:
+        """names and object fields (`@<oid>.<field>`) of a state: a cursor object's fields are loop state like local names"""
+        from .symeval import flat_env
+        return flat_env(state.env, state.heap)
 
     def num(self, v) -> Num:
         n = self.ev.as_num(v)
@@ -257,9 +305,10 @@ class ScanModel:
     def next_state(self, loop, v):
         """`v` (over the loop's entry values) one iteration later"""
         mapping = {}
+        endenv = self._view(loop, self.flat(loop['end']))
         for name, ent in loop['entry'].items():
-            if name in loop['names'] and name in loop['end'].env:
-                mapping[name] = (ent, loop['end'].env[name])
+            if name in loop['names'] and name in endenv:
+                mapping[name] = (ent, endenv[name])
 
         def fn(t: Term):
             for name, (ent, endv) in mapping.items():
